@@ -133,6 +133,9 @@ class LayerRunner:
     def val_token(self, v):
         """(value token, hex of its pickle or None)"""
         codec = self.codec
+        if codec.disk == 'json':
+            vp = codec.val_pickle(v)
+            return 'o' + vp.hex(), vp.hex()
         nat = codec.native(v, False)
         if nat is not None:
             return nat, None
@@ -197,6 +200,9 @@ class FanoutRunner(LayerRunner):
     def make(self):
         c = self.cfg
         s = self.settings()
+        if c['disk'] == 'json':
+            s['disk'] = self.env.diskcache.JSONDisk
+            s.pop('disk_pickle_protocol', None)
         return self.env.diskcache.FanoutCache(self.dir, shards=c['shards'], size_limit=c['limN'], **s)
 
     def page_size(self):
@@ -230,7 +236,7 @@ class FanoutRunner(LayerRunner):
         m = op['m']
         if 'k' in op:
             self.enc_key(f, op['k'])
-        if 'v' in op:
+        if 'v' in op and not op.get('read'):
             self.enc_val(f, op['v'])
         if 'ttl' in op:
             f['ttl'] = 'n' if op['ttl'] is None else op['ttl']
@@ -242,6 +248,12 @@ class FanoutRunner(LayerRunner):
         if tg:
             f['tg'] = 1
         k = op.get('k')
+        if m in ('set', 'add') and op.get('read'):
+            # the value is given as a readable binary stream
+            import io
+            f['v'], f['vp'], f['read'] = 'y' + op['v'].hex(), '-', 1
+            fn = c.set if m == 'set' else c.add
+            return tf(fn(k, io.BytesIO(op['v']), expire=op.get('ttl'), read=True, tag=op.get('tag')))
         if m == 'set':
             return tf(c.set(k, op['v'], expire=op.get('ttl'), tag=op.get('tag')))
         if m == 'add':
@@ -375,7 +387,7 @@ class DequeRunner(LayerRunner):
         d = self.obj
         m = op['m']
         rv = self.codec.render_val
-        if 'v' in op:
+        if 'v' in op and not op.get('read'):
             self.enc_val(f, op['v'])
         if 'i' in op:
             f['i'] = op['i']
@@ -516,7 +528,7 @@ class IndexRunner(LayerRunner):
         rv = self.codec.render_val
         if 'k' in op:
             self.enc_key(f, op['k'])
-        if 'v' in op:
+        if 'v' in op and not op.get('read'):
             self.enc_val(f, op['v'])
         k = op.get('k')
         if m == 'getitem':
@@ -636,10 +648,15 @@ class DjangoRunner(LayerRunner):
         t = op.get('timeout', 'd')
         f['timeout'] = t if t in ('d', 'n') else t
         timeout = DEFAULT_TIMEOUT if t == 'd' else None if t == 'n' else t
-        if 'v' in op:
+        if 'v' in op and not op.get('read'):
             self.enc_val(f, op['v'])
         if 'tag' in op:
             f['tag'] = render_sql(op['tag'])
+        if m in ('set', 'add') and op.get('read'):
+            import io
+            f['v'], f['vp'], f['read'] = 'y' + op['v'].hex(), '-', 1
+            fn = c.set if m == 'set' else c.add
+            return tf(fn(key, io.BytesIO(op['v']), timeout=timeout, version=version, read=True, tag=op.get('tag')))
         if m == 'set':
             return tf(c.set(key, op['v'], timeout=timeout, version=version, tag=op.get('tag')))
         if m == 'add':
